@@ -5,7 +5,7 @@ from concurrent.futures import ThreadPoolExecutor
 VERIF = os.path.dirname(os.path.dirname(os.path.abspath(__file__)))
 COQ = os.path.join(VERIF, 'coq')
 WORK = os.path.join(VERIF, 'work')
-REPO = '/repo'
+REPO = os.environ.get('BEZIERS_REPO', '/repo')
 NCPU = 16
 
 ALLOWED_AXIOMS = {
